@@ -95,7 +95,11 @@ def run(ck):
 
     for f, fn in ((m, fm), (w, fw)):
         D = Rat(f.den)
-        d = diff(f, p) * D * D
+        try:
+            d = diff(f, p) * D * D
+        except poly.Unmodelled as e:
+            ck.ob("A4", fn.qualname, "strictly increasing", fn.loc(), False, "the derivative cannot be formed for this formula: %s" % e)
+            continue
         cand = S(d, Rat.const(0))          # if d*D^2 is a monomial free of p it equals its value at p = 0
         pos_mono = monomial_sign(cand) == 1 and d == cand
         lin = all(dict(mn).get(p.id, 0) <= 1 for mn in f.den.t)
